@@ -277,6 +277,9 @@ def run(chk, repo, tier):
            not scalar_conv, scalar_conv or 'no conversion of the operand to the element type of the spectrum', fu.loc())
 
     # ---------------------------------------------------------------- C13-f
+    # the operands are left as they were: what is converted for a mixed-unit operation is a deep copy, converted by rebinding
+    from .c15 import spectrum_storage_rules
+    spectrum_storage_rules(chk, repo, 'C13-f')
     _, paths, _ = analyse(repo, fi, types={('sym', 's1'): cls, ('sym', 's2'): cls}, unroll=True)
     for p in returns(paths):
         tag = conds_str(p)[:80]
